@@ -457,6 +457,7 @@ static void gen_default_simcfg(vh_rng_t *rng, int hostile)
     sim_cfg.use_sock_cfg_cb      = vh_chance(rng, 3, 10);
     sim_cfg.use_sock_create_cb   = vh_chance(rng, 3, 10);
     sim_cfg.bsd_send_on_connecting = vh_chance(rng, 1, 3);
+    sim_cfg.tfo_late_handshake     = vh_chance(rng, 1, 3);
   }
 }
 
